@@ -259,6 +259,23 @@ def block_cfg(root):
         bd = blk('node.body', f['body'])
         el = blk('node.orelse', f['orelse'])
         edges += [('pre', t), (t, bd), (bd, t), (t, el), (el, 'after')]
+    elif c == 'Try' and f['body'] and f['body'][-1].cls in ('Return', 'Raise'):
+        # try: S...; return E  -  every statement before the escaping one, and its expression, can hand control to the
+        # handlers (exception) and to the finally block; the else block is never reached
+        bd = blk('node.body[0]', f['body'][:-1])
+        esc = blk('node.body[%d]' % (len(f['body']) - 1), f['body'][-1])
+        fin = blk('node.finalbody', f['finalbody'])
+        edges += [('pre', bd), (bd, esc), (bd, fin), (esc, fin), (fin, 'after')]
+        prev_type = None
+        for i, h in enumerate(f['handlers']):
+            ty = blk('node.handlers[%d].type' % i, h.fields.get('type'))
+            hb = blk('node.handlers[%d].body' % i, h.fields['body'])
+            if prev_type is None:
+                edges += [('pre', ty), (bd, ty), (esc, ty)]
+            else:
+                edges += [(prev_type, ty)]
+            edges += [(ty, hb), (hb, fin)]
+            prev_type = ty
     elif c == 'Try':
         bd = blk('node.body', f['body'])
         el = blk('node.orelse', f['orelse'])
